@@ -86,6 +86,7 @@ func main() {
 		fmt.Printf("CHECK-BROKEN property=%s cannot load %s: %v\n", *prop, *repo, err)
 		os.Exit(2)
 	}
+	report.MergeSamePos = p.ExpandedPos
 	if *genErrTable {
 		if err := rules.GenErrTable(p, filepath.Join(*verif, "checker/internal/rules/errtable.json")); err != nil {
 			fmt.Println(err)
@@ -125,6 +126,12 @@ func main() {
 		}
 		if len(p.AnchorNotes) > 0 {
 			extra["renamed_anchors"] = p.AnchorNotes
+		}
+		if len(p.Inlined) > 0 {
+			extra["expanded_helpers"] = p.Inlined
+		}
+		if len(p.InlineNotes) > 0 {
+			extra["expansion_notes"] = p.InlineNotes
 		}
 		if *tier == "thorough" && !*dry {
 			self, _ := os.Executable()
